@@ -297,6 +297,10 @@ func main() {
 		degreeMode(out)
 		return
 	}
+	if flag.Arg(0) == "gate" {
+		gateMode(out, *aux)
+		return
+	}
 	if flag.Arg(0) == "sat" {
 		satMode(seed, tier, out, n)
 		return
